@@ -197,6 +197,75 @@ func findByPath(top mp4.Box, prefix, want string) (sizedObj, error) {
 
 // materialisedFiles: files written by the harness's own box writer with shapes the corpus lacks
 // (64-bit mdat headers, mdat before moov, several tracks, extra top-level boxes).
+// mixedProtectionFiles: two-track fragmented files whose tracks have DIFFERENT protection parameters, written by
+// the harness's own box writer: (a) clear video + protected audio, (b) video with 16-byte IVs and sub-samples +
+// audio with 8-byte IVs. A decoder that looks up the protection parameters per moof instead of per traf
+// parses the second track's senc with the first track's parameters.
+func mixedProtectionFiles() []struct {
+	name string
+	data []byte
+} {
+	type nd = struct {
+		name string
+		data []byte
+	}
+	sinf := func(orig string, ivSize int) []byte {
+		tenc := mkFull("tenc", 0, 0, []byte{0, 0, 1, byte(ivSize)}, bytes.Repeat([]byte{0x33}, 16))
+		return mkBox("sinf", mkBox("frma", []byte(orig)), mkFull("schm", 0, 0, []byte("cenc"), be32(0x10000)), mkBox("schi", tenc))
+	}
+	build := func(videoIV, audioIV int) []byte {
+		var vEntry, aEntry []byte
+		if videoIV > 0 {
+			vEntry = mVisualEntry("encv", 640, 360, sinf("avc1", videoIV))
+		} else {
+			vEntry = mVisualEntry("avc1", 640, 360)
+		}
+		aEntry = mAudioEntry("enca", 2, 16, 48000, sinf("mp4a", audioIV))
+		empty := [][]byte{mStts(nil), mStsc(nil), mStsz(0, nil), mStco(nil)}
+		trakV := mTrak(1, 90000, 0, true, nil, append([][]byte{mStsd(vEntry)}, empty...)...)
+		trakA := mTrak(2, 48000, 0, false, nil, append([][]byte{mStsd(aEntry)}, empty...)...)
+		ini := cat(mFtyp("iso6", 0, "iso6", "cmfc"), mkBox("moov", mMvhd(1000, 0, 3), trakV, trakA, mkBox("mvex", mTrex(1, 0, 0, 0), mTrex(2, 0, 0, 0))))
+		vs := []mSample{{3000, 40, 0x02000000, 0}, {3000, 30, 0x01010000, 0}}
+		as := []mSample{{1024, 11, 0x02000000, 0}, {1024, 12, 0x02000000, 0}, {1024, 13, 0x02000000, 0}}
+		sencOf := func(ivSize int, samples []mSample, subs bool) []byte {
+			var p []byte
+			for i, sm := range samples {
+				iv := bytes.Repeat([]byte{byte(0xa0 + i)}, ivSize)
+				p = cat(p, iv)
+				if subs {
+					p = cat(p, []byte{0, 1}, []byte{0, 5}, be32(sm.Size-5))
+				}
+			}
+			fl := 0
+			if subs {
+				fl = 2
+			}
+			return mkFull("senc", 0, fl, be32(int64(len(samples))), p)
+		}
+		var payload []byte
+		for i, sm := range vs {
+			payload = cat(payload, tokenBytes(1, i+1, int(sm.Size)))
+		}
+		vlen := len(payload)
+		for i, sm := range as {
+			payload = cat(payload, tokenBytes(2, i+1, int(sm.Size)))
+		}
+		mk := func(offV, offA int64) []byte {
+			kidsV := [][]byte{mTfhd(0x20000, 1, 0, 0, 0, 0, 0), mTfdt(1, 9000), mTrun(1, 0xf01, offV, 0, vs)}
+			if videoIV > 0 {
+				kidsV = append(kidsV, sencOf(videoIV, vs, true))
+			}
+			kidsA := [][]byte{mTfhd(0x20000, 2, 0, 0, 0, 0, 0), mTfdt(1, 4800), mTrun(1, 0xf01, offA, 0, as), sencOf(audioIV, as, false)}
+			return mkBox("moof", mMfhd(1), mkBox("traf", kidsV...), mkBox("traf", kidsA...))
+		}
+		moof := mk(0, 0)
+		base := int64(len(moof) + 8)
+		return cat(ini, mk(base, base+int64(vlen)), mMdat(payload, false))
+	}
+	return []nd{{"mat:mixed-protection/clear-video+enca-iv8", build(0, 8)}, {"mat:mixed-protection/encv-iv16-subsamples+enca-iv8", build(16, 8)},
+		{"mat:mixed-protection/encv-iv8-subsamples+enca-iv16", build(8, 16)}}
+}
+
 func materialisedFiles() []struct {
 	name string
 	data []byte
@@ -226,6 +295,7 @@ func materialisedFiles() []struct {
 		out = append(out, nd{fmt.Sprintf("matter:mdat-first(large=%v)", large), cat(ftyp, mMdat(mkPayload(7), large), mkBox("moov", mMvhd(1000, 1, 2), trak), mkBox("free", zeros(3)))})
 	}
 	out = append(out, encryptedSegments()...)
+	out = append(out, mixedProtectionFiles()...)
 	return out
 }
 
